@@ -96,7 +96,10 @@ def canon_model(m):
     return outs, cat, sorted(unstr(d) for d, _ in dbs)
 
 
-def oracle(flags, cfgs, obs, probes, final):
+DISK = {"DB1": {"S1"}, "DA1": {"SA1"}}
+
+
+def oracle(flags, cfgs, obs, probes, final, mode="memory"):
     cd, cs = flags
     for (db, sch), o, (probe, err, before, after) in zip(cfgs, obs, probes):
         if o == [0]:
@@ -118,6 +121,9 @@ def oracle(flags, cfgs, obs, probes, final):
                 new = new - set(BUILTIN) - {"S1", "SA1"}   # schemas that come with an existing file
             if new - ({Sx} if (cs and d == D) else set()):
                 return f"connect({db!r},{sch!r}) with create_schema_on_connect={cs} created schemas {sorted(new)} in {d}"
+        if mode == "path-existing" and D in DISK and D in after0 and not DISK[D] <= after0[D]:
+            return (f"connect({db!r},{sch!r}) on a db_path that already holds {D}.db with schema {sorted(DISK[D])}: afterwards {D} has only "
+                    f"{sorted(after0[D])} - the existing database was not found (connecting must never disturb or hide existing data)")
         db_exists = D is not None and D in after0
         sch_exists = db_exists and Sx is not None and Sx in after0[D]
         if bool(dset) != db_exists:
@@ -163,7 +169,7 @@ def main():
         shutil.rmtree(tmp, ignore_errors=True)
     reported = False
     for (mode, prior, flags, cfgs), obs, (final, files, probes) in zip(specs, impl, extra):
-        msg = oracle(flags, cfgs, obs, probes, final)
+        msg = oracle(flags, cfgs, obs, probes, final, mode)
         if msg is None and mode == "memory" and files:
             msg = f"in-memory instance wrote files {files}"
         if msg and not reported:
